@@ -14,17 +14,18 @@ MANIFEST = dict(
          "crossbeam's contract): inductive invariant (conservation multiset, Quit/Work separation, counter "
          "bookkeeping); all workers exited and no Quit answer => visited is a permutation of the entries reachable "
          "under Skip answers; NoDup visited always; variant (explicit nat measure strictly decreasing on every step "
-         "that is not an idle spin of the wait loop) and progress (in every reachable non-final state some worker "
-         "reaches a measure-decreasing step by itself). Tie to the code: the real worker threads are serialised by a "
-         "deterministic scheduler through cfg(ripgrep_verif) yield hooks (uniform, PCT, preemption-bounded "
+         "that is not an idle spin of the wait loop), progress (in every reachable non-final state some worker "
+         "reaches a measure-decreasing step by itself) and termination under fairness (no infinite execution in which "
+         "every live worker keeps being scheduled and steals on non-empty deques fail only finitely often). Tie to the code: the real worker threads are serialised by a "
+         "deterministic scheduler through cfg(ripgrep_verif) yield hooks (uniform, sticky, hold-back-before-one-action, PCT, preemption-bounded "
          "exhaustive schedules; visitor Quit injected at every visit index) and every recorded trace is replayed "
          "through the extracted step relation, every observation (received message, counter, flag, deque lengths, "
          "visitor calls) compared; independent oracle for the visited set; real-thread soak.",
     note="PARTIAL in this sense: atomics are modelled as sequentially consistent single steps (code: Acquire/Release "
          "on the counter, SeqCst on the flag), crossbeam-deque 0.8.5 is assumed linearizable and element-conserving "
          "(its batch choice is nondeterministic in the model), preemption inside a crossbeam operation is covered only "
-         "by that assumption and the soak; termination is proved as variant + progress (termination under a fair "
-         "scheduler), fairness of the OS scheduler and of steal retries is assumed",
+         "by that assumption and the soak; termination is proved for every fair execution; fairness of the OS "
+         "scheduler and finiteness of steal retries are the assumptions",
     technique="Coq invariant/variant proof over a transition system + deterministic-scheduler trace replay against "
               "the extracted step relation + visited-set oracle + real-thread soak",
     design="§7 C07, A.4")
@@ -166,10 +167,15 @@ def gen_case(rng, base, max_nodes):
         resp = gen_resp(rng, nn, True)
     p = rng.random()
     seed = rng.getrandbits(48)
-    if p < 0.3:
+    if p < 0.25:
         return mk_case(base, n, f, resp, quit_at, 1, seed, [])
-    if p < 0.6:
+    if p < 0.45:
         return mk_case(base, n, f, resp, quit_at, 3, seed, [rng.choice([5, 10, 20, 35])])
+    if p < 0.65:
+        # hold a worker back right before one kind of synchronisation action (activate, is_quit_now, push,
+        # deactivate, a victim's steal, pop): the windows the OS scheduler opens for nanoseconds
+        return mk_case(base, n, f, resp, quit_at, 4, seed,
+                       [rng.choice([6, 6, 6, 7, 1, 5, 4, 2]), rng.choice([60, 90, 100])])
     if p < 0.85:
         return mk_case(base, n, f, resp, quit_at, 2, seed, [rng.randint(1, 4), 30 + 12 * nn])
     k = rng.randint(0, 3)
@@ -180,8 +186,17 @@ def gen_case(rng, base, max_nodes):
 
 # ---------------------------------------------------------------------------------- checking
 
+NFI_CAP = 6          # model-vs-code disagreements recorded per check (the rest is only counted)
+
+
+def concrete(ctx):
+    """violations that carry a failing input (schedule + forest on the real code)"""
+    return sum(1 for v in ctx.violations if not v[1])
+
+
 class Stats:
     def __init__(self):
+        self.nfi = 0
         self.kinds = {}
         self.steals_ok = 0
         self.steal_batches = 0
@@ -301,6 +316,9 @@ def check_runs(ctx, cases, st, want_decisions=False):
         code, slot = m[0], m[1]
         if code != 0:
             bad = slots[slot] if slot < nslots else None
+            st.nfi += 1
+            if status == 0 and st.nfi > NFI_CAP:
+                continue                      # keep hunting for a schedule that breaks the property itself
             ctx.violation("trace is not an execution of Model/WalkPar.v (traces_validated_against_impl): slot %d %r: %s; "
                           "model state %r" % (slot, bad, CODES.get(code, code), m[2]),
                           dict(rep, slot=slot, code=code, model_line=mlines[j]), nfi=(status == 0))
@@ -331,7 +349,7 @@ def explore(ctx, st, base, n, forest, resp, quit_at, bound, cap):
     frontier = [[]]
     total = 0
     for level in range(bound + 1):
-        if not frontier or len(ctx.violations) >= 25:
+        if not frontier or concrete(ctx) >= 12:
             break
         if total + len(frontier) > cap:
             ctx.rng.shuffle(frontier)
@@ -406,7 +424,7 @@ def run(ctx):
     try:
         ctx.cov["rule"] = ("case = forest (<= 9 entries as a real temp tree, files and directories, 1-3 roots) x workers "
                            "(0=default 2,1,2,3,4) x visitor answers (Skip on 15%, Quit by entry or at a visit index) x schedule "
-                           "(uniform random / sticky random / PCT depth 1-4 / non-preemptive + explicit preemptions). non-trivial = the run "
+                           "(uniform random / sticky random / hold-back-before-one-action-kind / PCT depth 1-4 / non-preemptive + explicit preemptions). non-trivial = the run "
                            "contains a successful steal or an idle wait; distinct by case text.")
         # corpus: every tiny forest, 2 and 3 workers, non-preemptive schedule and one uniform, Quit at each index
         corpus = []
@@ -418,10 +436,16 @@ def run(ctx):
                 corpus.append(mk_case(base, n, f, [0] * nn, None, 1, 11 * n + nn, []))
                 for q in range(nn):
                     corpus.append(mk_case(base, n, f, [0] * nn, q, 1, 5 * q + n, []))
+        # a worker held back between its receive in the wait loop and activate_worker(), others run on
+        for shape in ([[None]], [[[None, None, None]]], [[None, [None]], None]):
+            f = forest_from_shape(shape)
+            for n in (2, 3):
+                for sd in range(6):
+                    corpus.append(mk_case(base, n, f, [0] * size(f), None, 4, 100 * n + sd, [6, 100]))
         check_runs(ctx, corpus, st)
         # generated
         ng = ctx.count(4500)
-        while ng > 0 and len(ctx.violations) < 25:      # stop early when the code is plainly broken
+        while ng > 0 and concrete(ctx) < 12:      # stop early once failing schedules have been found
             k = min(ng, 750)
             check_runs(ctx, [gen_case(rng, base, 9) for _ in range(k)], st)
             ng -= k
@@ -446,6 +470,7 @@ def run(ctx):
     finally:
         shutil.rmtree(base, ignore_errors=True)
     ctx.cov["scheduled_runs"] = st.runs
+    ctx.cov["runs_not_replayable_in_model"] = st.nfi
     ctx.cov["slots"] = st.slots
     ctx.cov["yield_kinds"] = {KINDS.get(k, k): v for k, v in sorted(st.kinds.items())}
     ctx.cov["workers_histogram"] = st.workers
